@@ -25,6 +25,7 @@ RULE = ('E1: every chain of k binary operators from {+ - * / & = <> < > <= >=} (
 ASSUMPTIONS = ['vf/xlref is the reading of Excel operator semantics (precedence table of the statement)',
                'non-literal arithmetic compared at 1e-12 relative (15-digit normalisation of percent operands is an accepted reading)',
                'text forms of booleans/floats under & belong to C17 and are not generated']
+HOST_SETTINGS = {'shards': lambda shards: [0, len(shards) // 2], 'env': {'VERIF_HOST_DECIMAL': '3'}}
 FLOORS = {'quick': {'evaluations': 12000, 'nontrivial': 4000, 'counters': {'entrypoint_parses': 6000}},
           'thorough': {'evaluations': 120000, 'nontrivial': 20000, 'counters': {'entrypoint_parses': 50000}}}
 
